@@ -71,6 +71,21 @@ class Material:
         tag = {"T1": t1, "T2": T[2]["tag"], "TX": flip(t1, v), "Tshort": t1[:[-1, 8, 0, 12, 4][v % 5]] if v % 5 else t1[:-1],
                "Tlong": t1 + bytes(1 + v % 3)}[w["tag"]]
         aad = {"none": None, "A1": self.Av[1], "A2": self.Av[2], "AX": flip(self.Av[1], v)}[w["aad"]]
+        # paired faults: a length change of one segment together with the complementary change of its neighbour
+        # (the octets only move across the segment boundary, so naive concatenation sees the same string)
+        if v % 2 == 0 and w["ct"] == "CX":
+            k = 1 + (v // 2) % 15
+            c1 = T[1]["ciphertext"]
+            if w["tag"] == "Tshort" and w["iv"] == "IV1":
+                ct, tag = c1 + t1[:k], t1[k:]
+            elif w["tag"] == "Tlong" and w["iv"] == "IV1" and len(c1) > k:
+                ct, tag = c1[:-k], c1[-k:] + t1
+            elif w["iv"] == "IVshort" and w["tag"] == "T1":
+                i1 = T[1]["iv"]; k = 1 + (v // 2) % 4
+                iv, ct = i1[:-k], i1[-k:] + c1
+            elif w["iv"] == "IVlong" and w["tag"] == "T1" and len(c1) > 4:
+                i1 = T[1]["iv"]; k = 1 + (v // 2) % 4
+                iv, ct = i1 + c1[:k], c1[k:]
         recs = []
         for j, r in enumerate(w["recs"]):
             src = T[r["from"]]["recipients"][j % self.n]
@@ -157,6 +172,8 @@ def run_batch(args):
             variants = range(max(5, len(target) * 8))
         else:
             variants = [(seed + si * 7 + j * 13) % 997 for j in range(nvar)]
+            if len(sc["edits"]) == 2 and w["ct"] == "CX" and (w["tag"] in ("Tshort", "Tlong") or w["iv"] in ("IVshort", "IVlong")):
+                variants = [2 * j for j in range(6)] + variants          # boundary shifts of 1..6 octets
         for v in variants:
             try:
                 tok = m.build(w, v)
@@ -230,8 +247,11 @@ def run(ctx: Ctx) -> None:
     for (a, e) in pairs(thorough, ctx.seed):
         scs = list(enumerate(by_mode[mode_of(a)]))
         if not thorough:
-            keep = [x for x in scs if x[1]["verdict"] == "ok" or len(x[1]["edits"]) <= 1]
-            rest = [x for x in scs if not (x[1]["verdict"] == "ok" or len(x[1]["edits"]) <= 1)]
+            def paired(sc):
+                kinds = sorted(e[0] + "/" + str(e[-1]) for e in sc["edits"])
+                return kinds in (["ct/CX", "tag/Tshort"], ["ct/CX", "tag/Tlong"], ["ct/CX", "iv/IVshort"], ["ct/CX", "iv/IVlong"])
+            keep = [x for x in scs if x[1]["verdict"] == "ok" or len(x[1]["edits"]) <= 1 or paired(x[1])]
+            rest = [x for x in scs if not (x[1]["verdict"] == "ok" or len(x[1]["edits"]) <= 1 or paired(x[1]))]
             scs = keep + rnd.sample(rest, min(len(rest), 700))
         elif len(ENCS) > 1 and e not in ("A128CBC-HS256", "A256GCM", "XC20P"):
             scs = [x for x in scs if len(x[1]["edits"]) <= 1 or x[1]["verdict"] == "ok"]      # other encs: single edits only
